@@ -10,6 +10,7 @@
    Queries whose plan depends on the primary-key order / key-range switches are a separate tagged
    stream (those switches are C12 / C13's subject).
 """
+import glob
 import json
 import os
 import re
@@ -85,6 +86,25 @@ def inject_insert_select(g, h):
     return sg.make_hist(h["id"], h["opts"], h["names"], out)
 
 
+def attach_queries(h, qs):
+    """puts the (queries ...) clause after (names ...) in the request line"""
+    h["queries"] = qs
+    qsexp = "(queries %s)" % " ".join("(%d %s)" % (q[0], sg.hexs(q[1])) for q in qs)
+    head, sep, tail = h["line"].partition(") (create ")
+    h["line"] = head + ") " + qsexp + " (create " + tail
+    return h
+
+
+def load_corpus():
+    """corpus/C05/*.json: a history (storegen json) plus "queries": [[step, sql, kind], ...]"""
+    out = []
+    for p in sorted(glob.glob(os.path.join(vlib.VERIF, "corpus", PROP, "*.json"))):
+        j = json.load(open(p))
+        h = sg.hist_from_json(j, hid=800000 + len(out))
+        out.append(attach_queries(h, [(q[0], q[1], q[2], None) for q in j.get("queries", [])]))
+    return out
+
+
 def gen_queries(g, h):
     """[(step, sql, kind, ncmp)] against the tables alive after each step"""
     orc = sg.Oracle(h["names"])
@@ -98,7 +118,7 @@ def gen_queries(g, h):
             t = r.choice(sorted(orc.tables))
             d = orc.tables[t][0]
             nonkey = [i for i, c in enumerate(d.cols) if not c[3]]
-            kind = r.choice(["bag", "bag", "grp", "agg", "ord", "join", "join", "pkord", "pkrange", "pkrangeord"])
+            kind = r.choice(["bag", "bag", "grp", "agg", "ord", "join", "join", "pkord", "pkrange", "pkrangeord", "win"])
             cols = [c[0] for c in d.cols]
             if kind == "bag":
                 p = g.gen_pred(d)
@@ -144,6 +164,12 @@ def gen_queries(g, h):
                 # repeat here: compared on the key column's sequence, no LIMIT)
                 sql = "select %s from %s where %s %s %d order by %s" % (
                     ", ".join(cols), t, cols[0], r.choice(["<", "<=", ">=", ">"]), r.choice(sg.INT_DOM), cols[0])
+            elif kind == "win":
+                # a window function over the scan (the memory scan yields an EMPTY chunk for an INSERT whose
+                # rows are all deleted: WindowExecutor panicked on it, repaired in /repo).  Only the window
+                # column is selected: row numbers are 1..n whatever the order of equal keys
+                b = r.choice(cols)
+                sql = "select row_number() over (order by %s) from %s" % (b, t)
             else:
                 continue
             g.count("query:" + kind)
@@ -225,6 +251,24 @@ def gen_range_hist(g, hid):
                     "select p.a, q.d from t0 p join t1 q on p.a = q.a where q.a %s %d order by p.a" % (op, c)])
                 queries.append((k, q, "pkjoinseq" if " order by " in q else "pkjoin", None))
                 g.count("query:pkjoin-range")
+            # outer joins between the two keyed multi-insert tables, ORDER BY a key column of the PADDED side
+            # (the NULL-padded rows must come where NULLs sort, on both engines: analyze_order / MergeJoin
+            # defect repaired by 15fe3f3); the ORDER BY column is selected first and compared as a sequence
+            for _ in range(r.randint(1, 2)):
+                jt, oc = r.choice([("left", "q.a"), ("right", "p.a"), ("full", "p.a"), ("full", "q.a"), ("left", "q.a")])
+                other = "p.a" if oc == "q.a" else "q.a"
+                q = "select %s, %s from t0 p %s join t1 q on p.a = q.a order by %s" % (oc, other, jt, oc)
+                queries.append((k, q, "ordcol0", None))
+                g.count("query:outer-join-orderby-padded-side")
+        # window functions over the scan (keys are unique: the answer is one bag)
+        if r.random() < 0.6:
+            # only answers that do not depend on the order in which the scan delivers the rows: the window's
+            # ORDER BY / PARTITION BY are bound but IGNORED by the planner and WindowExecutor (a running
+            # aggregate in scan order; recorded finding engines:window-ignores-order-by, witness in corpus/C05)
+            q = r.choice(["select row_number() over (order by a) from t0", "select count(a) over (order by a) from t0",
+                          "select row_number() over (order by a), count(a) over (order by a) from t0"])
+            queries.append((k, q, "win", None))
+            g.count("query:win")
 
     steps.append(ins(r.choice([40, 300, 700, 1100, 2300])))
     # mostly: more INSERTs before the first questions, so that the table starts with >= 2 row-sets of
@@ -241,6 +285,20 @@ def gen_range_hist(g, hid):
         x = r.random()
         if x < 0.35:
             steps.append(ins(r.choice([5, 60, 300, 1100]), d1 if (two and r.random() < 0.3) else d))
+        elif x < 0.45 and used:
+            # DELETE of exactly the rows of ONE earlier INSERT (a dense key interval above the pool): on the
+            # memory engine that INSERT's chunk then has no visible row and the scan yields an empty chunk
+            lo = 100000 + 1000 * len(steps)
+            n_ = r.choice([1, 5, 60])
+            rows = [tuple([lo + j] + [g.gen_val(c[1], c[2]) for c in d.cols[1:]]) for j in range(n_)]
+            used.update(x_[0] for x_ in rows)
+            steps.append({"k": "insert", "table": "t0", "rows": rows, "def": d, "sql": "insert into t0 values %s" % ", ".join(
+                "(" + ", ".join(sg.sql_lit(v, c[1]) for v, c in zip(row, d.cols)) + ")" for row in rows)})
+            p = ("and", ("cmp", 0, "ge", lo), ("cmp", 0, "le", lo + n_ - 1))
+            steps.append({"k": "delete", "table": "t0", "pred": p, "def": d,
+                          "sql": "delete from t0 where a >= %d and a <= %d" % (lo, lo + n_ - 1)})
+            used.difference_update(x_[0] for x_ in rows)
+            g.count("step:delete-whole-insert")
         elif x < 0.6:
             p = g.gen_pred(d, 1)
             ps = sg.pred_sql(p, d)
@@ -276,6 +334,9 @@ def same_result(kind, x, y):
         return True
     if sorted(rx) != sorted(ry):
         return False
+    if kind.startswith("ordcol"):
+        c = int(kind[6:])           # same rows, and the ORDER BY column (selected at position c) as a sequence
+        return [v[c] for v in rx] == [v[c] for v in ry]
     if kind in ("pkrangeseq", "pkjoinseq"):
         return rx == ry             # unique keys: the ORDER BY answer is one sequence
     return kind not in ("ord", "pkord", "pkrangeord") or [v[0] for v in rx] == [v[0] for v in ry]
@@ -302,22 +363,16 @@ def run(ck):
     for i in range(n):
         if i % 8 == 3:
             h = gen_range_hist(g, i)
-            qs = h["queries"]
-            qsexp = "(queries %s)" % " ".join("(%d %s)" % (q[0], sg.hexs(q[1])) for q in qs)
-            head, sep, tail = h["line"].partition(") (create ")
-            h["line"] = head + ") " + qsexp + " (create " + tail
-            hists.append(h)
+            hists.append(attach_queries(h, h["queries"]))
             continue
         g.null_in_nn = 0.04 if i % 2 else 0.0    # such INSERTs must be rejected by both engines
         h = g.history(i, nsteps=g.r.randint(6, 20), weights=WEIGHTS, bulk=(i % 10 == 0), followup=False)
         h = inject_insert_select(g, h)
         qs = gen_queries(g, h)
-        h["queries"] = qs
-        qsexp = "(queries %s)" % " ".join("(%d %s)" % (q[0], sg.hexs(q[1])) for q in qs)
-        head, sep, tail = h["line"].partition(") (create ")  # insert after (names ...)
-        h["line"] = head + ") " + qsexp + " (create " + tail
-        hists.append(h)
-    ck.log("running %d generated statement sequences on both engines" % len(hists))
+        hists.append(attach_queries(h, qs))
+    fixed = load_corpus()
+    hists = fixed + hists
+    ck.log("running %d corpus and %d generated statement sequences on both engines" % (len(fixed), len(hists) - len(fixed)))
     impl, model, ann, errs = sg.run_hists(ck.work, vlib.harness_bin("c05"), vlib.lean_exe("drv_c05"), hists, "c05", shards=12)
     if errs:
         ck.report("harness:crash", "the harness process failed: %s" % errs[0][1][-400:], replay={"stderr": errs[0][1]}, found_input=False)
@@ -392,7 +447,7 @@ def run(ck):
                 noopt, plan_m, plan_d = (parts + ["", "", ""])[2:5]
                 _, sql, kind, meta = h["queries"][int(qi)]
                 ca, ra = parse_result(a)
-                tagged = kind in ("pkord", "pkrange", "pkrangeord", "pkrangeseq", "pkjoin", "pkjoinseq")
+                tagged = kind in ("pkord", "pkrange", "pkrangeord", "pkrangeseq", "pkjoin", "pkjoinseq", "winorder")
                 T["tagged" if tagged else "queries"] += 1
                 okq = same_result(kind, a, b)
                 if ra:
@@ -474,6 +529,19 @@ def run(ck):
                               "query `%s` differs between engines (%s): memory %s, disk %s, disk with the optimizer off %s; table facts %s" % (
                                   sql, "same rows, different ORDER BY sequence" if same_bag else "different rows",
                                   a[:160], b[:160], noopt[:160], facts), replay=qrp)
+                elif kind == "winorder":
+                    # corpus witness of the recorded finding: a running window aggregate follows the scan order
+                    # (memory: insertion order, disk: key order of the merging scan), the OVER (ORDER BY ..) is ignored
+                    cb, rb = parse_result(b)
+                    T["window_order_witness"] = T.get("window_order_witness", 0) + 1
+                    ck.report("engines:window-ignores-order-by",
+                              "query `%s` differs between engines: memory %s, disk %s - the running aggregate follows each engine's scan order, "
+                              "the window's ORDER BY is bound but not planned or executed (shared query layer; visible as an engine difference)" % (sql, a[:200], b[:200]), replay=qrp)
+                elif kind == "win" or kind.startswith("ordcol"):
+                    T["io_bad"] += 1
+                    ck.report("engines:query:window" if kind == "win" else "engines:query:outer-join-order",
+                              "query `%s` differs between engines: memory %s, disk %s, disk with the optimizer off %s; table facts %s" % (
+                                  sql, a[:200], b[:200], noopt[:160], facts), replay=qrp)
                 else:
                     bad_here = bad_here or ("query `%s`" % sql, a[:200], b[:200])
             if bad_here:
@@ -518,7 +586,7 @@ def run(ck):
         ck.report("thm:" + name, "theorem %s is not discharged: %s" % (name, st.get("status")),
                   replay={"theorem": name, "status": st}, found_input=False)
     ck.coverage.update({
-        "evaluations": len(hists), "steps": T["steps"], "queries": T["queries"], "tagged_pk_queries": T["tagged"],
+        "evaluations": len(hists), "corpus_histories": len(fixed), "steps": T["steps"], "queries": T["queries"], "tagged_pk_queries": T["tagged"],
         "distinct_nontrivial": len(distinct),
         "rule": "statement sequences (DDL, INSERT incl. >1024-row batches, DELETE, forced compaction/vacuum/reopen on the disk side) x disk layout options, each step followed by SELECT * of every table and 1-3 generated queries on both engines (on keyed tables also pk-ordered scans, key-range scans, range scans aimed at block boundaries, and - round 6 - key range AND key order in one statement `WHERE pk <range> ORDER BY pk [LIMIT n]` compared as sequences plus primary-key joins under a key range, over tables built by several INSERTs with interleaving key ranges and small row-set sizes); `outcome-both:*` in the distribution = statement outcomes OBSERVED identically on both engines (insert:not-null-rejected = INSERT with NULL in a NOT NULL / key column refused by both); distinct_nontrivial = distinct (query, result) pairs with a non-empty result",
         "samples": samples,
